@@ -157,9 +157,9 @@ class RGSpace(StructuredDomain):
             tol = 1e-12*tmp[-1]
             # remove all points that are closer than tol to their right
             # neighbors.
-            # I'm appending the last value*2 to the array to treat the
-            # rightmost point correctly.
-            return tmp[np.diff(np.r_[tmp, 2*tmp[-1]]) > tol]
+            # I'm appending infinity to the array to treat the rightmost point
+            # correctly (also if it is zero).
+            return tmp[np.diff(np.r_[tmp, np.inf]) > tol]
 
     @staticmethod
     def _kernel(x, sigma):
